@@ -200,32 +200,43 @@ Definition chk_parallel (N H : nat) (table : list (list Z)) (oks : list bool) (n
   && (cnt =? count_ok (tok oks) fs)
   && (1 <=? N).
 
-(** ---- the output sink (LazyTextfile) and the worker logger set-up: the two places where the code is NOT
-    independent of the worker count (findings F-C42-1, F-C42-2) ---- *)
+(** ---- the output sink (LazyTextfile) and the worker logger set-up ----
+    Both were places where the output depended on the worker count (findings F-C42-1 / F-C42-2, fixed in /repo by
+    89a45c7 and 230fb41).  The [_old] definitions keep the behaviour before the fixes for the record. *)
 
-(** LazyTextfile only reaches the disk when its file object is closed by [__del__].  Serial path: the handler (and
-    its LazyTextfile) dies by reference count when lint_files returns -> flushed.  Parallel path: the handler used
-    by [Reporter.output] is a COPY unpickled from the manager dict; iterating the ListProxy ends with an IndexError
-    whose traceback keeps the frame of [output] (hence the copy) alive in a reference cycle; whether the text
-    reaches the disk depends on the environment: [true] = a cyclic collection finalises the LazyTextfile before its
-    buffer, [false] = the buffer is finalised first / at interpreter exit, and the pending text is dropped. *)
-Definition sink (parallel : bool) (gc_in_order : bool) (l : list item) : list item :=
+(** BEFORE 89a45c7: LazyTextfile only reached the disk when its file object was closed by [__del__].  Parallel path: the
+    handler used by [Reporter.output] is a COPY unpickled from the manager dict, kept alive by the IndexError/traceback
+    cycle of the ListProxy iteration; [gc_in_order = false]: the buffer is finalised before the LazyTextfile (or at
+    interpreter exit) and the pending text is dropped. *)
+Definition sink_old (parallel : bool) (gc_in_order : bool) (l : list item) : list item :=
   if parallel && negb gc_in_order then [] else l.
 
-Definition chk_sink (parallel : bool) (l observed : list item) : bool :=
-  existsb (fun g => items_eqb observed (sink parallel g l)) [true; false].
+(** NOW: [LazyTextfile.write] flushes after every write, so what [handler.output] wrote is on disk whatever the path
+    and whenever (or whether) the handler copy is finalised. *)
+Definition sink (parallel : bool) (gc_in_order : bool) (l : list item) : list item := l.
 
-(** init_worker: [for handler in logger.handlers: logger.removeHandler(handler)] mutates the list it iterates, so
-    the handlers at odd positions survive in the worker; a surviving handler emits the record in the worker AND
-    receives it again from the parent's QueueListener. *)
-Fixpoint survivors {A : Type} (l : list A) : list A :=
+(** observed content of an output file after the interpreter exited, up to order: everything, for either GC outcome *)
+Definition chk_sink (parallel : bool) (l observed : list item) : bool :=
+  forallb (fun g => is_perm observed (sink parallel g l)) [true; false].
+
+(** BEFORE 230fb41: [for handler in logger.handlers: logger.removeHandler(handler)] mutated the list it iterated, so the
+    handlers at odd positions survived in the worker, emitted the record there AND received it again from the parent's
+    QueueListener. *)
+Fixpoint survivors_old {A : Type} (l : list A) : list A :=
   match l with
-  | _ :: y :: r => y :: survivors r
+  | _ :: y :: r => y :: survivors_old r
   | _ => []
   end.
 
-Fixpoint survives (j : nat) : bool :=
-  match j with 0 => false | 1 => true | S (S k) => survives k end.
+Fixpoint survives_old (j : nat) : bool :=
+  match j with 0 => false | 1 => true | S (S k) => survives_old k end.
+
+Definition log_copies_old (parallel : bool) (j : nat) : nat :=
+  if parallel then 1 + b2n (survives_old j) else 1.
+
+(** NOW: [for handler in list(logger.handlers)] removes every handler; only the QueueHandler is left in a worker *)
+Definition survivors {A : Type} (l : list A) : list A := [].
+Definition survives (j : nat) : bool := false.
 
 (** number of times handler number j of the Loki logger receives one immediate violation message *)
 Definition log_copies (parallel : bool) (j : nat) : nat :=
